@@ -42,6 +42,23 @@ struct State {
     last_event: std::time::Instant,
     forced_switches: u64,
     deadlock: bool,
+    /// kernel thread ids of the participants (to tell "sleeping on a lock" from "starved of CPU")
+    tids: Vec<i32>,
+}
+
+/// Is the kernel thread sleeping (state S or D in /proc)? A runnable thread that merely did not get
+/// a CPU for a while is R and must not be taken for blocked.
+fn thread_sleeping(tid: i32) -> bool {
+    if tid <= 0 {
+        return false;
+    }
+    match std::fs::read_to_string(format!("/proc/self/task/{}/stat", tid)) {
+        Ok(t) => match t.rfind(')') {
+            Some(i) => matches!(t[i + 1..].trim_start().chars().next(), Some('S') | Some('D')),
+            None => false,
+        },
+        Err(_) => false,
+    }
 }
 
 struct Sched {
@@ -121,6 +138,7 @@ impl Sched {
     fn start(&self, me: usize) {
         let mut st = self.m.lock().unwrap();
         st.arrived[me] = true;
+        st.tids[me] = unsafe { libc::syscall(libc::SYS_gettid) as i32 };
         self.cv.notify_all();
         while st.current != me {
             st = self.cv.wait(st).unwrap();
@@ -293,6 +311,7 @@ pub fn run_once(bodies: &[Vec<Call>], prefix: &[usize]) -> Execution {
             last_event: std::time::Instant::now(),
             forced_switches: 0,
             deadlock: false,
+            tids: vec![0; n],
         }),
         cv: Condvar::new(),
     });
@@ -349,9 +368,18 @@ pub fn run_once(bodies: &[Vec<Call>], prefix: &[usize]) -> Execution {
         if st.finished.iter().all(|&f| f) {
             break;
         }
-        if st.last_event.elapsed() > std::time::Duration::from_millis(40) {
+        if st.last_event.elapsed() > std::time::Duration::from_millis(60) {
             let cur = st.current;
+            // only a token holder that is really asleep in the kernel (twice, 20 ms apart) counts as blocked
+            let tid = if cur < st.tids.len() { st.tids[cur] } else { 0 };
             if cur < st.finished.len() && !st.finished[cur] {
+                let first = thread_sleeping(tid);
+                drop(st);
+                std::thread::sleep(std::time::Duration::from_millis(20));
+                st = sched.m.lock().unwrap();
+                if !(first && thread_sleeping(tid)) || st.current != cur || st.last_event.elapsed() < std::time::Duration::from_millis(60) || st.finished[cur] {
+                    continue;
+                }
                 st.blocked[cur] = true;
             }
             let next = (0..st.finished.len()).find(|&i| !st.finished[i] && !st.blocked[i]);
